@@ -390,3 +390,9 @@ fn construct_size_too_large_error(
     )
     .attach_context("size", size.to_string())
 }
+
+#[cfg(rustic_core_verif)]
+#[allow(missing_docs, unused_imports, dead_code, clippy::all, clippy::pedantic, clippy::nursery)]
+pub mod verif_hooks {
+    use super::*;
+}
